@@ -172,6 +172,14 @@ class Records:
         if attr == "_asdict":
             return None
         if info.ci is not None:
+            # a class-level constant of the record class, bound once in the class body
+            cvals = [s_.value for s_ in info.ci.node.body if isinstance(s_, ast.Assign) and any(
+                isinstance(t, ast.Name) and t.id == attr for t in s_.targets)]
+            cvals += [s_.value for s_ in info.ci.node.body if isinstance(s_, ast.AnnAssign) and s_.value is not None
+                      and isinstance(s_.target, ast.Name) and s_.target.id == attr]
+            if len(cvals) == 1 and isinstance(cvals[0], ast.Constant) and all(
+                    is_pure_simple(v) for v in b.values()):
+                return copy.deepcopy(cvals[0])
             prop = info.ci.props.get(attr, {}).get("get") if hasattr(info.ci, "props") else None
             if prop is not None:
                 from .normalize import single_expr_of
@@ -192,6 +200,11 @@ class Records:
                             return n
                     return S().visit(expr_)
         return None
+
+
+def is_pure_simple(e):
+    from .desugar import is_pure
+    return is_pure(e)
 
 
 RECORDS = None        # set by normalize.apply() for the tree being analysed
